@@ -145,6 +145,11 @@ pub fn run(ctx: &Ctx) -> ! {
         x.only_datasets = Some(vec!["diamond", "fan3", "counts0123", "chains"]);
         x
     }));
+    cfg.extra.push(("two-edge structures under the A-typed root FirstA + one deviation of any kind", {
+        let mut x = corpus::structures_any_rooted_cfg(&uni, "FirstA");
+        x.only_datasets = Some(vec!["diamond", "fan3", "counts0123"]);
+        x
+    }));
     cfg.stream_share = 1.0;
     let stats = corpus::drive(
         ctx,
